@@ -385,6 +385,36 @@ pub fn run(ctx: &Ctx) {
         });
         ctx.space("label counts: every count 1..=300 of 1-, 2- and 3-byte labels, and of 1-byte labels followed by a 5-, 63- or 64-byte label or preceded by a 64-byte one (5 dot placements each)", n3, "complete");
     }
+    // space 2a'': texts that look like something else: every string of length <= 9 over
+    // {0, 1, 9, '.'} (dotted quads and their neighbours), and well-known address and host literals
+    {
+        let mut texts: Vec<String> = Vec::new();
+        let mut b = Vec::new();
+        crate::engine::for_each_string_upto(b"019.", 9, &mut b, &mut |x| texts.push(String::from_utf8_lossy(x).to_string()));
+        for s in [
+            "127.0.0.1", "255.255.255.255", "0.0.0.0", "192.168.1.1", "10.0.0.1", "224.0.0.251", "1.2.3.4", "8.8.8.8", "169.254.1.1", "1.2.3.4.5", "1.2.3", "256.1.1.1", "01.1.1.1", "1.1.1.1.", "1.0.0.127.in-addr.arpa", "localhost",
+            "localhost.localdomain", "0x7f.1", "1e3", "1e3.5", "0", "00", "-1", "4294967295", "18446744073709551615", "nan", "inf", "NaN", "true", "false", "null", "None", "a.b.c.d", "fe80", "ff02", "dead.beef", "0.0", "1.1",
+            "com", "local", "example.com", "www.example.com", "_http._tcp.local", "xn--caf-dma.local", "xn--99999999", "1-2-3-4", "1_1", "a-", "-a", "a--b",
+        ] {
+            texts.push(s.to_string());
+        }
+        let n4 = texts.len() as u64;
+        let tchunks: Vec<&[String]> = texts.chunks(4096).collect();
+        par_shards(ctx, &tchunks, |ts, t: &mut Tally| {
+            for s in ts.iter() {
+                t.evals += 1;
+                if ref_name(s).is_ok() {
+                    t.nontrivial += 1;
+                }
+                let f = check_text(s);
+                t.outcome("text");
+                if !f.is_empty() {
+                    ctx.violations(f);
+                }
+            }
+        });
+        ctx.space("texts that look like something else: every string of length <= 9 over {0, 1, 9, '.'} (dotted quads and their neighbours), 60 well-known address, number, keyword and host literals", n4, "complete");
+    }
     // space 2b: character class x position x length: every label length 0..=70 with every
     // combination of first / interior / last character class, alone and inside a longer name
     {
